@@ -85,7 +85,7 @@ theorem cut_core {k : Nat} (ihPall : ∀ j, j ≤ k → TPk fl tmpl max prog F j
     have := mem_drop_of_le hok hlcp hl' (hbnd it hit hc l' hl')
     exact Lv.lev_of_mem hok'.nodup this
   have hgr' : GRel lv' σ π D G' R := by
-    refine Forall2.imp_mem hgr ?_
+    refine hgr.imp ?_
     rintro it hit fr ⟨hg, l0, hfr, hl0⟩
     exact ⟨hg, l0, hfr, fun hc => hin it hit hc l0 (hl0 hc)⟩
   have hco' : CutsOK lv' G' := by
